@@ -476,7 +476,12 @@ func (b *Builder) List(o interface{}, ident string) *List {
 }
 
 func (b *Builder) SetInverted(o interface{}) {
-	o.(*Pattern).inverted = true
+	p, valid := o.(*Pattern)
+	if !valid {
+		b.setErr(fmt.Errorf("%T does not support modifier, only patterns do", o))
+		return
+	}
+	p.inverted = true
 }
 
 func (b *Builder) SetRevisionDate(o interface{}, revisionDate string) {
